@@ -40,6 +40,7 @@ void hook(const char* dir, int kind, const char* name, void* ptr, void* state);
 #include <cstring>
 #include <fstream>
 #include <iostream>
+#include <functional>
 #include <map>
 #include <memory>
 #include <sstream>
@@ -138,6 +139,7 @@ void hook(const char* dir, int kind, const char* name, void* ptr, void* state)
 
 // ---------------------------------------------------------------- callbacks (application side)
 static void do_invoke(int node);
+static std::function<void(RS&)> g_create_tmp; // creates one more sandbox of this backend (set in main)
 
 template<int K>
 static tainted<long, Sbx> cb(RS& sandbox, tainted<long, Sbx> tnode)
@@ -162,6 +164,22 @@ static tainted<long, Sbx> cb(RS& sandbox, tainted<long, Sbx> tnode)
     sandbox.set_transition_state((void*)nxt);
     tr::Ev e("setstate");
     e.str("s", SB_NAMES[si]).str("state", nxt);
+    out.put(e);
+  }
+  {
+    // the application creates (and destroys) a sandbox of its own inside the callback body, while
+    // the invocation that called back is still running: the crossings of that invocation - the
+    // callbacks it makes afterwards included - stay attributed to ITS sandbox
+    tr::Ev e("tmpsbx");
+    e.num("node", node);
+    try {
+      RS tmp;
+      g_create_tmp(tmp);
+      tmp.destroy_sandbox();
+      e.str("out", "ok");
+    } catch (const std::runtime_error&) {
+      e.str("out", "abort");
+    }
     out.put(e);
   }
   for (int k : n.kids) {
@@ -466,7 +484,7 @@ int main(int argc, char** argv)
       static bool measured = false;
       if (!measured) {
         measured = true;
-        measure_capacity([&](RS& p) {
+        g_create_tmp = [&](RS& p) {
 #if defined(BK_VM)
           p.create_sandbox(&lib1);
 #elif defined(BK_DYLIB)
@@ -474,7 +492,8 @@ int main(int argc, char** argv)
 #else
           p.create_sandbox();
 #endif
-        });
+        };
+        measure_capacity(g_create_tmp);
       }
       for (int i = 0; i < NSB; i++) {
         sb[i] = std::make_unique<RS>();
